@@ -453,3 +453,72 @@ Proof. vm_compute. reflexivity. Qed.
 Example ex_rsp :
   fst (write_rspfile ex_fs ex_cwd (s [114;47;113;46;114;115;112]) (s [7;8;9])) = None.
 Proof. vm_compute. reflexivity. Qed.
+
+(* ---------------------------------------------------------------------------------------- *)
+(* the two preparations together *)
+
+Definition dirs_kept (fs fs' : fstree) : Prop := forall q, lookup fs q = Some KDir -> lookup fs' q = Some KDir.
+
+Lemma extends_dirs_kept fs fs' : extends fs fs' -> dirs_kept fs fs'.
+Proof. intros E q H. now apply E. Qed.
+
+Lemma walk_dirs_kept fs fs' : dirs_kept fs fs' -> forall cs cur p, walk fs cur cs = inr p -> walk fs' cur cs = inr p.
+Proof.
+  intros K. induction cs as [|c r IH]; intros cur p H; simpl in *; [exact H|].
+  unfold step_comp in *. destruct (fs_is_dotdot c); [now apply IH|]. destruct (fs_is_dot c); [now apply IH|].
+  destruct (node_at fs (cur ++ [c])) as [[|ct]|] eqn:N; try discriminate.
+  rewrite node_at_lookup in N by apply app_one_not_nil.
+  rewrite node_at_lookup by apply app_one_not_nil. rewrite (K _ N). now apply IH.
+Qed.
+
+Lemma is_dir_dirs_kept fs fs' cwd p : dirs_kept fs fs' -> is_dir_l fs cwd p = true -> is_dir_l fs' cwd p = true.
+Proof.
+  unfold is_dir_l. intros K H.
+  destruct (walk fs (lp_start cwd p) (lp_comps p)) as [e|q] eqn:W; [discriminate|].
+  now rewrite (walk_dirs_kept _ _ K _ _ _ W).
+Qed.
+
+Lemma write_rspfile_dirs_kept fs cwd name content e fs' :
+  write_rspfile fs cwd name content = (e, fs') -> dirs_kept fs fs'.
+Proof.
+  unfold write_rspfile. set (p := path_new name).
+  destruct (match lp_parent p with Some parent => create_dir_all fs cwd parent | None => (None, fs) end)
+    as [[er|] fs1] eqn:C.
+  - intros H; inversion H; subst. apply extends_dirs_kept.
+    destruct (lp_parent p); [eapply cda_extends; eauto|discriminate].
+  - assert (E : extends fs fs1).
+    { destruct (lp_parent p); [eapply cda_extends; eauto|]. inversion C; subst. apply extends_refl. }
+    destruct (sys_write fs1 cwd name content) as [er|fs2] eqn:Wr; intros H; inversion H; subst.
+    + now apply extends_dirs_kept.
+    + apply sys_write_ok in Wr. apply write_shape in Wr as (loc & -> & ND & NE & _).
+      intros q L. apply E in L. simpl. destruct (path_eqb loc q) eqn:Q; [|exact L].
+      apply path_eqb_spec in Q. subst. contradiction.
+Qed.
+
+Theorem prepare_step_ready fs cwd outs rsp fs' :
+  prepare_step fs cwd outs rsp = (None, fs') ->
+  (forall o d, In o outs -> lp_parent (path_new o) = Some d -> is_dir_l fs' cwd d = true) /\
+  (forall n c, rsp = Some (n, c) -> read_l fs' cwd (path_new n) = Some (KFile c)) /\
+  (forall q k, lookup fs q = Some k ->
+     lookup fs' q = Some k \/ exists n c, rsp = Some (n, c) /\ k <> KDir /\ lookup fs' q = Some (KFile c)).
+Proof.
+  unfold prepare_step. destruct (create_parent_dirs fs cwd outs) as [[e|] fs1] eqn:C; [discriminate|].
+  pose proof (create_parent_dirs_creates _ _ _ _ C) as D.
+  pose proof (create_parent_dirs_frame _ _ _ _ _ C) as [E1 _].
+  destruct rsp as [[n c]|].
+  - intros W. pose proof (write_rspfile_dirs_kept _ _ _ _ _ _ W) as K.
+    pose proof (write_rspfile_writes _ _ _ _ _ W) as (R & loc & LL & FR).
+    split; [|split].
+    + intros o d I Pp. eapply is_dir_dirs_kept; [exact K|]. eapply D; eauto.
+    + intros n' c' Q. inversion Q; subst. exact R.
+    + intros q k L. apply E1 in L.
+      destruct (list_eq_dec (list_eq_dec N.eq_dec) q loc) as [->|Ne].
+      * destruct k as [|ct].
+        -- left. now apply K.
+        -- right. exists n, c. repeat split; [discriminate|exact LL].
+      * left. now apply (FR q Ne).
+  - intros H; inversion H; subst. split; [|split].
+    + exact D.
+    + intros n c Q. discriminate.
+    + intros q k L. left. now apply E1.
+Qed.
